@@ -126,13 +126,14 @@ def mock_case(draw, mode='mixed'):
                 body += P(k_) + (b'\xac' if i == 0 else b'\xba')
             body += SC.num(draw(st.integers(0, len(items)))) + b'\x9c'
     script = bytes(body)
-    return dict(pairs=pairs, script=script, stack=stack, flags=flags, sv=sv, tx=(tx, idx, amount, spent) if with_tx else None, kinds=kinds, template=template)
+    weight = draw(st.sampled_from([0, 1, 49, 50, 99, 100, 1000000, 1000000])) if sv == R.TAPSCRIPT else None
+    return dict(pairs=pairs, script=script, stack=stack, flags=flags, sv=sv, tx=(tx, idx, amount, spent) if with_tx else None, kinds=kinds, template=template, weight=weight)
 
 
 def case_json(c):
     return dict(pairs=[[s.hex(), k.hex()] for s, k in c['pairs']], script=c['script'].hex(), stack=[x.hex() for x in c['stack']], flags=c['flags'], sv=c['sv'],
                 tx=(dict(tx=c['tx'][0].ser().hex(), idx=c['tx'][1], amount=c['tx'][2], spent=[[s['value'], s['spk'].hex()] for s in c['tx'][3]]) if c['tx'] else None),
-                kinds=c['kinds'], template=c['template'])
+                kinds=c['kinds'], template=c['template'], weight=c.get('weight'))
 
 
 def case_from_json(j):
@@ -140,7 +141,7 @@ def case_from_json(j):
     if j['tx']:
         tx = (T.Tx.parse(bytes.fromhex(j['tx']['tx'])), j['tx']['idx'], j['tx']['amount'], [dict(value=v, spk=bytes.fromhex(s)) for v, s in j['tx']['spent']])
     return dict(pairs=[(bytes.fromhex(s), bytes.fromhex(k)) for s, k in j['pairs']], script=bytes.fromhex(j['script']), stack=[bytes.fromhex(x) for x in j['stack']], flags=j['flags'],
-                sv=j['sv'], tx=tx, kinds=j['kinds'], template=j['template'])
+                sv=j['sv'], tx=tx, kinds=j['kinds'], template=j['template'], weight=j.get('weight'))
 
 
 def mock_str(pairs):
@@ -156,6 +157,8 @@ def tree_run(c, with_mock=True):
             kw['leafhash'] = V.tapleaf(0xc0, c['script'])
         # `direct` has no mock parameter: use the Instance path when mocks are wanted
     kw = dict(script=c['script'], stack=c['stack'], flags=c['flags'], sv=c['sv'], mode='step')
+    if c.get('weight') is not None:
+        kw['weight'] = c['weight']
     if with_mock:
         kw['mock'] = mock_str(c['pairs'])
     if c['tx'] and c['sv'] in (R.BASE, R.WITNESS_V0):
@@ -170,7 +173,7 @@ def ref_run(c, with_mock=True):
     if c['tx'] and c['sv'] in (R.BASE, R.WITNESS_V0):
         tx, idx, amount, spent = c['tx']
         ck = V.Checker(tx, idx, spent[idx]['value'], spent)
-    ed = {'weight': 1000000, 'leaf': bytes(32)} if c['sv'] == R.TAPSCRIPT else None
+    ed = {'weight': c['weight'] if c.get('weight') is not None else 1000000, 'leaf': bytes(32)} if c['sv'] == R.TAPSCRIPT else None
     return R.run(c['script'], c['stack'], c['flags'], c['sv'], checker=ck, execdata=ed, mock=c['pairs'] if with_mock else None)
 
 
@@ -248,7 +251,7 @@ def wrongsig_case(draw):
     else:
         script, stack = P(k_) + b'\xac' + P(k_) + b'\xba', [other, b'']
     flags = draw(st.sampled_from([0, F['NULLFAIL'], F['STRICTENC'] | F['DERSIG']]))
-    return dict(pairs=pairs, script=script, stack=stack, flags=flags, sv=sv, tx=None, kinds=['wrongsig'], template=op)
+    return dict(pairs=pairs, script=script, stack=stack, flags=flags, sv=sv, tx=None, kinds=['wrongsig'], template=op, weight=None)
 
 
 def check_wrongsig(c, ctx):
